@@ -498,6 +498,8 @@ func (e *Engine) callEffects(fi *FuncInfo, fe *FuncEffects, ce *ast.CallExpr) {
 				}
 			}
 		}
+	case "(*golang.org/x/exp/rand.PCGSource).Uint64", "(*golang.org/x/exp/rand.PCGSource).Seed", "(*golang.org/x/exp/rand.PCGSource).UnmarshalBinary":
+		fe.Writes["rng.pos"] = true
 	case "encoding/json.Unmarshal":
 		// calls UnmarshalJSON methods of the target's type graph
 		fe.Writes["VMValue.*"] = true
